@@ -275,32 +275,8 @@ theorem C01_agree_two_peers (x y : (P2P × TLState) × (P2P × TLState)) (h0 : P
         p < y.1.1.sync.queues.length → p < y.2.1.sync.queues.length → ∀ f : Nat,
         (f : Int) < y.1.1.sync.currentFrame → (f : Int) < y.2.1.sync.currentFrame →
         (f : Int) ≤ (rget y.1.1.sync.queues p).lastAddedFrame → (f : Int) ≤ (rget y.2.1.sync.queues p).lastAddedFrame →
-        (((execReqs y.1.2 r1A).R f).getD p default).1 = (((execReqs y.2.2 r1B).R f).getD p default).1 := by
-  obtain ⟨ghA, ghB, h⟩ := PPInv_run x y h0 hrun
-  obtain ⟨s1A, r1A, g1A, _, _, hsetA, hrightA, _, _, _, hcaseA⟩ := advanceRollbackFrame_spec y.1.1 sA' ghA y.1.2 [] reqsA nowA h.sa hcA
-  obtain ⟨s1B, r1B, g1B, _, _, hsetB, hrightB, _, _, _, hcaseB⟩ := advanceRollbackFrame_spec y.2.1 sB' ghB y.2.2 [] reqsB nowB h.sb hcB
-  refine ⟨r1A, r1B, ?_, ?_, ?_⟩
-  · rcases hcaseA with h | ⟨c, ins, _, h, _⟩
-    · exact Or.inl h
-    · exact Or.inr ⟨ins, h⟩
-  · rcases hcaseB with h | ⟨c, ins, _, h, _⟩
-    · exact Or.inl h
-    · exact Or.inr ⟨ins, h⟩
-  · intro p hown hpA hpB f hfA hfB hqA hqB
-    have hlA : f < (ghA.specs p).vals.length := by
-      have := lastAdded_of_QI (h.sa.tinv.sync.all p hpA)
-      rw [this] at hqA; omega
-    have hlB : f < (ghB.specs p).vals.length := by
-      have := lastAdded_of_QI (h.sb.tinv.sync.all p hpB)
-      rw [this] at hqB; omega
-    have hpA1 : p < s1A.sync.queues.length := by rw [hsetA.nq]; exact hpA
-    have hpB1 : p < s1B.sync.queues.length := by rw [hsetB.nq]; exact hpB
-    have eA := hrightA p hpA1 f (by rw [hsetA.cur]; exact hfA) (by rw [hsetA.specs]; exact hlA)
-    have eB := hrightB p hpB1 f (by rw [hsetB.cur]; exact hfB) (by rw [hsetB.specs]; exact hlB)
-    rw [← hsetA.inv.rows p hpA1 f, ← hsetB.inv.rows p hpB1 f, eA, eB, hsetA.specs, hsetB.specs]
-    rcases hown with ⟨ha, hnb⟩ | ⟨hb, hna⟩
-    · exact ((h.ba p ha hnb).2 f hlB)
-    · exact ((h.ab p hb hna).2 f hlA).symm
+        (((execReqs y.1.2 r1A).R f).getD p default).1 = (((execReqs y.2.2 r1B).R f).getD p default).1 :=
+  pair_agree x y h0 hrun nowA nowB sA' sB' reqsA reqsB hcA hcB
 
 /-- The pair invariant also pins each session's copy of a remote player's stream to the owner's:
 whatever B holds of a player of A is, entry by entry, what A's own queue specification holds. -/
